@@ -756,10 +756,10 @@ def c10_part(ctx):
     _, vecs = ra_vectors(ctx, "single", 2 if ctx.quick else 3, 1)
     _, vecs2 = ra_vectors(ctx, "update", 1, 1 if ctx.quick else 2)
     ndiff = 0
+    seen = set()
     for tag, vs in (("c10-single", vecs), ("c10-update", vecs2)):
         fresh = ra_run(ctx, binary, vs, tag)
         shared = ra_run(ctx, binary, vs, tag, shared=True)
-        seen = set()
         for v, a, b in zip(vs, fresh, shared):
             if a == b:
                 continue
